@@ -91,7 +91,7 @@ def inject(scratch):
                 parent = parent_module_file(scratch, rel)
                 pp = os.path.join(scratch, parent)
                 with open(pp, "a") as fh:
-                    fh.write("\n#[cfg(kani)]\nmod verif_kani;\n")
+                    fh.write("\n#[cfg(kani)]\npub(crate) mod verif_kani;\n")
                 injected.append(parent)
     return injected
 
